@@ -1,6 +1,5 @@
 import numpy as np
-from scipy.sparse.csgraph import min_weight_full_bipartite_matching
-from scipy.sparse import csr_matrix
+from scipy.optimize import linear_sum_assignment
 
 from socialchoicekit.utils import check_square_matrix
 from socialchoicekit.profile_utils import ValuationProfile, Profile
@@ -41,8 +40,14 @@ class MaximumWeightMatching:
     """
     check_square_matrix(valuation_profile)
 
-    biadjacency_matrix = csr_matrix(np.where(np.isnan(valuation_profile), 0, valuation_profile))
-    _, col_ind = min_weight_full_bipartite_matching(biadjacency_matrix, maximize=True)
+    # NaN marks an unacceptable pair and must never be used; a utility of 0 is an ordinary (acceptable) pair.
+    # A sparse biadjacency matrix cannot tell the two apart (explicit zeros are dropped), so the dense solver is
+    # used with minus infinity for the forbidden pairs.
+    weights = np.where(np.isnan(valuation_profile), -np.inf, np.array(valuation_profile, dtype=float))
+    try:
+      _, col_ind = linear_sum_assignment(weights, maximize=True)
+    except ValueError:
+      raise ValueError("no full matching exists")
     return col_ind + self.index_fixer
 
 def root_n_serial_dictatorship(
